@@ -405,6 +405,10 @@ pub fn binding_list(all: bool) -> Vec<(K, K)> {
             v.push((*a, *b));
         }
     }
+    // two entries of one table whose character codes differ by 65536 (CC[1], CC[2]): keys of the save stack must
+    // tell them apart
+    v.push((K::CatCode, K::CatCode));
+    v.push((K::MathCode, K::MathCode));
     let _ = all;
     v
 }
